@@ -153,13 +153,17 @@ pub mod tstd {
     pub uninterp spec fn slice_contains<T>(s: Seq<T>, x: T) -> bool;
     pub assume_specification<T: PartialEq>[<[T]>::contains](s: &[T], x: &T) -> (r: bool)
         ensures r == slice_contains(s@, *x);
+    /// std: `contains` is `iter().any(|e| *e == *x)`
+    pub broadcast axiom fn axiom_slice_contains_eq<T: PartialEq>(s: Seq<T>, x: T)
+        requires <T as vstd::std_specs::cmp::PartialEqSpec>::obeys_eq_spec(),
+        ensures #[trigger] slice_contains(s, x) == (exists|i: int| 0 <= i < s.len() && vstd::std_specs::cmp::PartialEqSpec::eq_spec(&#[trigger] s[i], &x));
     pub broadcast axiom fn axiom_slice_contains_i32(s: Seq<i32>, x: i32)
         ensures #[trigger] slice_contains(s, x) == s.contains(x);
     pub broadcast axiom fn axiom_slice_contains_usize(s: Seq<usize>, x: usize)
         ensures #[trigger] slice_contains(s, x) == s.contains(x);
 
     pub broadcast group group_tstd {
-        axiom_slice_contains_i32, axiom_slice_contains_usize, axiom_vec_into_iter_seq, axiom_cmp_min_i32,
+        axiom_slice_contains_eq, axiom_slice_contains_i32, axiom_slice_contains_usize, axiom_vec_into_iter_seq, axiom_cmp_min_i32,
     }
     pub uninterp spec fn into_iter_seq<T, I>(i: I) -> Seq<T>;
     pub assume_specification<T, A: Allocator, I: IntoIterator<Item = T>>[<Vec<T, A> as Extend<T>>::extend::<I>](v: &mut Vec<T, A>, iter: I)
@@ -239,6 +243,8 @@ pub mod tstd {
     pub assume_specification[<std::time::Duration as PartialOrd>::partial_cmp](a: &std::time::Duration, b: &std::time::Duration) -> (r: Option<core::cmp::Ordering>)
         ensures r == duration_cmp(*a, *b);
 
+    /// the map without the entry whose key borrows to `k` (named so that get_mut can say "everything else is unchanged")
+    pub uninterp spec fn without_key<K, V, Q: ?Sized>(m: Map<K, V>, k: &Q) -> Map<K, V>;
     pub assume_specification<'a, K: Eq + Hash, V, S: BuildHasher, A: Allocator, Q: Hash + Eq + ?Sized>[HashMap::<K, V, S, A>::get_mut::<Q>](m: &'a mut HashMap<K, V, S, A>, k: &Q) -> (r: Option<&'a mut V>)
         where K: Borrow<Q>
         ensures
@@ -248,7 +254,8 @@ pub mod tstd {
                 &&& r.is_none() ==> final(m)@ == old(m)@
                 &&& r.is_some() ==> final(m)@.dom() == old(m)@.dom()
                      && vstd::std_specs::hash::maps_borrowed_key_to_value(final(m)@, k, *final(r.unwrap()))
-                     && forall|k2: K| #![auto] final(m)@.dom().contains(k2) && !vstd::std_specs::hash::maps_borrowed_key_to_value(final(m)@, k, final(m)@[k2]) ==> final(m)@[k2] == old(m)@[k2]
+                     && vstd::std_specs::hash::borrowed_key_removed(old(m)@, without_key(old(m)@, k), k)
+                     && vstd::std_specs::hash::borrowed_key_removed(final(m)@, without_key(old(m)@, k), k)
             };
 }
 
@@ -377,6 +384,7 @@ pub mod spec {
     pub open spec fn state_wf(s: crate::push::state::PushState) -> bool {
         s.input_stack.wf() && s.output_stack.wf() && s.graph_stack.wf()
         && s.input_stack.is_queue() && s.output_stack.is_queue() && !s.graph_stack.is_queue()
+        && (forall|i: int| 0 <= i < s.graph_stack.n() ==> (#[trigger] s.graph_stack.live()[i]).wf())
     }
     pub open spec fn envelope(s: crate::push::state::PushState) -> bool {
         &&& state_wf(s)
